@@ -693,8 +693,14 @@ func mainC12() {
 			evid.EngineError("C12", "%v", err)
 		}
 		outcomes := map[string]int{}
+		hangs := 0
 		enumerateC12(thorough, func(idx int64, c c12Case) {
 			if !s.Mine(idx) {
+				return
+			}
+			if hangs >= 2 {
+				// every hang verdict costs a full watchdog period; the run already FAILED, do not spend hours confirming it
+				w.Capped("worker stopped after 2 hang verdicts (each costs a 25 s watchdog); the remaining cases of this shard were not run")
 				return
 			}
 			evid.Publish(fmt.Sprintf("%+v", c))
@@ -711,6 +717,9 @@ func mainC12() {
 				w.Sample(c)
 			}
 			sig, detail := verdictC12(c, res)
+			if res.Hang != "" {
+				hangs++
+			}
 			o := "all messages delivered exactly once and intact"
 			if sig != "" {
 				o = sig
